@@ -414,6 +414,14 @@ class Bench:
             slackT = 20 * W.slack_total(vs, unit) + (20 * W.q_vol() * (len(vs.contents) + 1) if unit == 'L' else 0)
             # the library rounds the request itself to p decimals: in storage units for L and mol, in grams for g
             q_req = {'L': W.q_vol(), 'mol': W.units.q * W.units.mol_mult, 'g': W.units.q, 'U': F(0)}[unit]
+            # a vessel that took part in earlier pairs of this operation (the threaded source of a broadcast) has drifted
+            # from the model's copy by the tolerance accumulated so far
+            prev = tol.get(('s', cs), {})
+            if same:
+                prev = dict(prev)
+                for n, x in tol.get(('d', cs), {}).items():
+                    prev[n] = prev.get(n, F(0)) + x
+            slackT += sum((x * W.msubs[n].per_amount(unit) for n, x in prev.items()), F(0))
             band_src = 2 * slackT + 4 * q_req + F(1, 10 ** 11) * max(T, abs(value))
             if value < 0:
                 return {'status': 'must_refuse', 'why': 'negative', 'pair': k}
